@@ -1698,6 +1698,8 @@ class SingleItemDecoder(object):
 
             if state is stDecodeLength:
                 # Decode length
+                outerLength = length
+
                 for firstOctet in readFromStream(substrate, 1, options):
                     if isinstance(firstOctet, SubstrateUnderrunError):
                         yield firstOctet
@@ -1739,6 +1741,17 @@ class SingleItemDecoder(object):
 
                 if length == -1 and not self.supportIndefLength:
                     raise error.PyAsn1Error('Indefinite length encoding not supported by this codec')
+
+                if outerLength is not None and outerLength >= 0:
+                    # an element inside a definite-length explicit tag
+                    # can not be larger than the tag's contents
+                    headerSize = substrate.tell() - substrate.markedPosition
+                    if headerSize + max(length, 0) > outerLength:
+                        raise error.PyAsn1Error(
+                            '%d-octet element does not fit into %d-octet '
+                            'explicit tag at %s' % (
+                                headerSize + max(length, 0),
+                                outerLength, tagSet))
 
                 state = stGetValueDecoder
 
